@@ -354,7 +354,8 @@ func (qpc *QuotaPreemptionContext) preemptVictims() {
 	for app, victims := range apps {
 		if len(victims) > 0 {
 			qpc.results.claimedResource = victimsTotalResource
-			qpc.results.preemptedVictims = victims
+			// a victim released since it was selected is left alone: it is not marked, not booked and not announced
+			marked := make([]*Allocation, 0, len(victims))
 			for _, victim := range victims {
 				err := victim.MarkPreempted()
 				if err != nil {
@@ -371,9 +372,13 @@ func (qpc *QuotaPreemptionContext) preemptVictims() {
 					zap.String("nodeID", victim.GetNodeID()))
 				qpc.queue.IncPreemptingResource(victim.GetAllocatedResource())
 				victim.SendPreemptedByQuotaChangeEvent(qpc.queue.GetQueuePath())
+				marked = append(marked, victim)
 			}
-			app.notifyRMAllocationReleased(victims, si.TerminationType_PREEMPTED_BY_SCHEDULER,
-				"preempting allocations to enforce new max quota for queue : "+qpc.queue.GetQueuePath())
+			qpc.results.preemptedVictims = marked
+			if len(marked) > 0 {
+				app.notifyRMAllocationReleased(marked, si.TerminationType_PREEMPTED_BY_SCHEDULER,
+					"preempting allocations to enforce new max quota for queue : "+qpc.queue.GetQueuePath())
+			}
 		}
 	}
 }
